@@ -229,6 +229,69 @@ def alpha(p, kind=None):
     return a
 
 
+def _fr(x):
+    """Exact rational of an int/float, staying an int when integral (fast path)."""
+    if isinstance(x, int):
+        return x
+    if x.is_integer():
+        return int(x)
+    return Fraction(x)
+
+
+def alpha_fast(p, c):
+    """Fast abstraction for the dense loops: returns (rep, f, h, m, s, off_minutes, dn, inst, problem).
+    Same meaning as alpha(); ints stay ints, Fractions only where a field is fractional."""
+    if p._month_of_year is not None:
+        rep, f = "cal", (p._year, p._month_of_year, p._day_of_month)
+    elif p._day_of_year is not None:
+        rep, f = "ord", (p._year, p._day_of_year)
+    elif p._week_of_year is not None:
+        rep, f = "week", (p._year, p._week_of_year, p._day_of_week)
+    else:
+        return None, (), None, None, None, None, None, None, "no date representation"
+    h, m, s = p._hour_of_day, p._minute_of_hour, p._second_of_minute
+    tz = p._time_zone
+    problem = None
+    for x in f:
+        if type(x) is not int:
+            if isinstance(x, float) and x.is_integer():
+                continue
+            problem = "non-integral date field %r" % (f,)
+    if problem is None:
+        f = tuple(int(x) for x in f)
+        if not c.valid(rep, f):
+            problem = "date fields %r not a real %s date in %s" % (f, rep, c.kind)
+    fh = _fr(h)
+    fm = None if m is None else _fr(m)
+    fs = None if s is None else _fr(s)
+    if not M.valid_time(fh, fm, fs) or (m is not None and type(fh) is not int) or (
+            s is not None and type(fm) is not int):
+        problem = problem or "time fields h=%r m=%r s=%r out of range" % (h, m, s)
+    tod = fh * 3600 + (fm or 0) * 60 + (fs or 0)
+    tzh, tzm = tz._hours, tz._minutes
+    if tz._unknown or type(tzh) is not int or type(tzm) is not int or not M.valid_zone(tzh, tzm):
+        problem = problem or "zone (%r, %r) invalid" % (tzh, tzm)
+        return rep, f, h, m, s, None, None, None, problem
+    off = tzh * 60 + tzm
+    if problem is not None and "date" in problem:
+        return rep, f, h, m, s, off, None, None, problem
+    dn = c.dn_from(rep, f)
+    return rep, f, h, m, s, off, dn, dn * 86400 + tod - off * 60, problem
+
+
+def canon_point(p):
+    """Exact key of a TimePoint: every slot, the zone by its slots; floats keep their type."""
+    tz = p._time_zone
+    return (p._num_expanded_year_digits, p._year, p._month_of_year, p._day_of_year, p._day_of_month,
+            p._day_of_week, p._week_of_year, _tv(p._hour_of_day), _tv(p._minute_of_hour),
+            _tv(p._second_of_minute), p._truncated, p._truncated_property, p._truncated_dump_format,
+            p._dump_format, tz._hours, tz._minutes, tz._unknown)
+
+
+def _tv(x):
+    return (type(x).__name__, x)
+
+
 def alpha_duration(d):
     """(years, months, exact seconds as Fraction, is_week_form)."""
     if d.get_is_in_weeks():
